@@ -19,6 +19,8 @@ package lib
 import (
 	"fmt"
 	"net"
+	"runtime"
+	"strings"
 	"sync"
 	"time"
 
@@ -106,6 +108,7 @@ type c05Ev struct {
 	BadDl int    // write: first accepted byte that does not continue the delivered stream (-1 none)
 	Fault bool   // the result was injected by the script (not a consequence of a close)
 	WG    int    // close / close-ret: WaitGroup counter at that moment (-1 unknown)
+	Sync  bool   // close: issued on a halfPipe's own goroutine (not by the detached `go closeConn(src)`)
 }
 
 type c05World struct {
@@ -313,6 +316,8 @@ type c05Conn struct {
 	delivered int
 	closed    bool
 	closeRet  bool // the first Close call has returned
+	syncOpen  int  // Close calls issued on a halfPipe's own goroutine that have not returned yet
+	syncSeen  int  // such calls seen at all
 	nClose    int
 	dlSet     bool
 	endHit    bool
@@ -485,37 +490,66 @@ func (c *c05Conn) setDL(d int, t time.Time) error {
 	return nil
 }
 
+// c05OnHalfPipeGoroutine reports whether the caller runs on the goroutine of a halfPipe itself (its
+// deferred synchronous close of the destination) rather than on the detached goroutine that closes
+// the source: only then is the halfPipe function itself (not one of its closures) on the stack.
+func c05OnHalfPipeGoroutine() bool {
+	pc := make([]uintptr, 32)
+	n := runtime.Callers(2, pc)
+	fr := runtime.CallersFrames(pc[:n])
+	for {
+		f, more := fr.Next()
+		if strings.HasSuffix(f.Function, "/station/lib.halfPipe") {
+			return true
+		}
+		if !more {
+			return false
+		}
+	}
+}
+
 func (c *c05Conn) close(d int) error {
+	sync := c05OnHalfPipeGoroutine()
 	w := c.w
 	w.mu.Lock()
 	defer w.mu.Unlock()
 	idx := c.nClose
 	c.nClose++
+	if sync {
+		c.syncSeen++
+	}
 	if c.closed {
-		c.ev(c05Ev{Dir: d, Op: "close", Call: idx, Err: "closed", WG: w.wgCount()})
-		c.ev(c05Ev{Dir: d, Op: "close-ret", Call: idx, Err: "closed", WG: w.wgCount()})
+		c.ev(c05Ev{Dir: d, Op: "close", Call: idx, Err: "closed", WG: w.wgCount(), Sync: sync})
+		c.ev(c05Ev{Dir: d, Op: "close-ret", Call: idx, Err: "closed", WG: w.wgCount(), Sync: sync})
 		return c.mkErr("closed", "close")
 	}
 	c.closed = true
-	c.ev(c05Ev{Dir: d, Op: "close", Call: idx, Err: c.s.CloseErr, Fault: c.s.CloseErr != "" || c.s.CloseMs > 0, WG: w.wgCount()})
+	c.ev(c05Ev{Dir: d, Op: "close", Call: idx, Err: c.s.CloseErr, Fault: c.s.CloseErr != "" || c.s.CloseMs > 0, WG: w.wgCount(), Sync: sync})
 	w.pick()
 	w.cond.Broadcast()
 	if c.s.CloseMs > 0 {
+		if sync {
+			c.syncOpen++
+		}
 		w.mu.Unlock()
 		time.Sleep(time.Duration(c.s.CloseMs) * time.Millisecond)
 		w.mu.Lock()
+		if sync {
+			c.syncOpen--
+		}
 	}
 	c.closeRet = true
-	c.ev(c05Ev{Dir: d, Op: "close-ret", Call: idx, Err: c.s.CloseErr, WG: w.wgCount()})
+	c.ev(c05Ev{Dir: d, Op: "close-ret", Call: idx, Err: c.s.CloseErr, WG: w.wgCount(), Sync: sync})
 	w.cond.Broadcast()
 	return c.mkErr(c.s.CloseErr, "close")
 }
 
-// closeState reports whether Close was called and whether the first Close call has returned.
-func (c *c05Conn) closeState() (begun, returned bool) {
+// closeState reports whether Close was called, whether the first Close call has returned, and how
+// many Close calls issued on a halfPipe's own goroutine are still in progress.
+func (c *c05Conn) closeState() (begun, returned bool, syncOpen int) {
 	c.w.mu.Lock()
 	defer c.w.mu.Unlock()
-	return c.closed, c.closeRet
+	return c.closed, c.closeRet, c.syncOpen
 }
 
 func (c *c05Conn) isClosed() bool {
